@@ -290,33 +290,13 @@ def check_spread(rep, wf, cls):
             rep.fail('C08.R4', w, 'projects are assigned to lecturers and passed to the writer', got='%d candidates' % len(lists), construct='project-lecturer table missing')
             return
         p_, t = lists[0]
-        c = t
-        if c[0] == 'cat':
-            parts = [x for x in c[1] if x != ('list', ())]
-            c = parts[0] if len(parts) == 1 else c
-        ok = False
-        why = show(t)[:160]
-        if c[0] == 'comp' and len(c[1]) == 2 and c[1][0][1] == TRUE and c[1][1][1] == TRUE:
-            kb, jb = c[1][0][0], c[1][1][0]
-            if jb[3] == CALL(S('range'), [kb]) and c[2] in (BIN('Add', ('indexof', kb), C(1)), BIN('Add', C(1), ('indexof', kb))):
-                # for k, share in enumerate(shares): for _ in range(share): k + 1
-                r = even_spread(kb[3], A(ARGS, 'n2'), A(ARGS, 'n3'))
-                ok = r['ok']
-                why = r['why'] or why
-                if r.get('unknown'):
-                    rep.inconclusive('C08.R4', w, 'projects per lecturer follow a recognised even-spread idiom', got=why)
-                    return
-            elif kb[3] == CALL(S('range'), [A(ARGS, 'n3')]) and c[2] in (BIN('Add', kb, C(1)), BIN('Add', C(1), kb)) and jb[3][0] == 'call' and jb[3][1] == S('range') and len(jb[3][2]) == 1:
-                cnt_t = jb[3][2][0]
-                if cnt_t[0] == 'idx' and cnt_t[2] == kb:
-                    r = even_spread(cnt_t[1], A(ARGS, 'n2'), A(ARGS, 'n3'))
-                    ok = r['ok']
-                    why = r['why'] or why
-                    if r.get('unknown'):
-                        rep.inconclusive('C08.R4', w, 'projects per lecturer follow a recognised even-spread idiom', got=why)
-                        return
-        rep.check(ok, 'C08.R4', w, 'lecturer k (ascending) supervises floor(n2/n3) projects, plus one for the first n2 % n3 lecturers; projects are numbered consecutively', got=why,
-                  want='[k+1 for k in range(n3) for _ in range(share[k])]', construct='project-lecturer assignment: ' + why[:100])
+        from ..genfacts import blocks_of
+        r = blocks_of(t, A(ARGS, 'n2'), A(ARGS, 'n3'))
+        if r.get('unknown'):
+            rep.inconclusive('C08.R4', w, 'projects per lecturer follow a recognised block assignment', got=r['why'])
+            return
+        rep.check(r['ok'], 'C08.R4', w, 'lecturer k (ascending) supervises floor(n2/n3) projects, plus one for the first n2 % n3 lecturers; projects are numbered consecutively',
+                  got=r['why'] or show(t)[:160], want='[k+1 for k in range(n3) for _ in range(share[k])]', construct='project-lecturer assignment: ' + (r['why'] or '')[:100])
 
 
 # ---- R7 ------------------------------------------------------------------------------------------------------------------
